@@ -142,6 +142,7 @@ func c16Pipelines(c *Ctx) map[string]*c16List {
 			ins  ssa.Instruction
 		}
 		var writes []wr
+		incomplete := false
 		for f := range L.literal {
 			writes = append(writes, wr{[]string{f}, -1, nil})
 		}
@@ -149,6 +150,7 @@ func c16Pipelines(c *Ctx) map[string]*c16List {
 			acc, prob := flow.ParamAccesses(task, 0, flow.InModule)
 			tname := flow.ShortFunc(task)
 			if len(prob) > 0 {
+				incomplete = true
 				c.Run.Unknown(rule, want+"/"+tname, fpos(c, task), "context uses are field reads, field writes or calls", strings.Join(prob, "; "))
 			}
 			ev := flow.For(task)
@@ -188,6 +190,8 @@ func c16Pipelines(c *Ctx) map[string]*c16List {
 				seen[key] = true
 				if by != "" {
 					c.Run.OK(rule, key, ipos(c, a.Instr), "ctx."+ps+" is written before it is read", "written by "+by, true)
+				} else if incomplete {
+					c.Run.Unknown(rule, key, ipos(c, a.Instr), "ctx."+ps+" is written before it is read", "no writer found, but the write summary of an earlier task is incomplete")
 				} else {
 					c.Run.Bad(rule, key, ipos(c, a.Instr), "ctx."+ps+" is written by the handler literal or an earlier task of "+want, "no task of "+want+" and no field of the handler's context literal writes ctx."+topField(ps)+": "+tname+" reads the zero value")
 				}
@@ -383,13 +387,27 @@ func c16Arguments(c *Ctx, lists map[string]*c16List) {
 			continue
 		}
 		optNegWant := dls.Field("OptNeg")
+		rs := newC16Resolver(L)
+		ci := rs.taskIndex(create)
 		// --- session keys
+		derived := map[string]bool{}
+		for _, t := range L.tl.Tasks {
+			for _, s := range flow.Calls(t, flow.Named(jsPkg+"getFNwkSIntKey", jsPkg+"getAppSKey", jsPkg+"getSNwkSIntKey", jsPkg+"getNwkSEncKey")) {
+				derived[strings.TrimPrefix(s.Callee, jsPkg)] = true
+			}
+		}
+		for _, kn := range []string{"getFNwkSIntKey", "getAppSKey", "getSNwkSIntKey", "getNwkSEncKey"} {
+			if !derived[kn] {
+				c.Run.Bad(rKey, name+"/"+kn, c.Prog.Rel(L.tl.Pos), "a task of "+name+" derives the session key with "+kn, "no task calls "+kn)
+			}
+		}
 		for _, t := range L.tl.Tasks {
 			sites := flow.Calls(t, flow.Named(jsPkg+"getFNwkSIntKey", jsPkg+"getAppSKey", jsPkg+"getSNwkSIntKey", jsPkg+"getNwkSEncKey"))
 			if len(sites) == 0 {
 				continue
 			}
 			e := flow.For(t)
+			ti := rs.taskIndex(t)
 			tname := flow.ShortFunc(t)
 			flags := map[string]*flow.Term{}
 			perKey := map[string][]flow.Site{}
@@ -400,8 +418,7 @@ func c16Arguments(c *Ctx, lists map[string]*c16List) {
 				ss := perKey[kn]
 				base := name + "/" + tname + "/" + kn
 				if len(ss) == 0 {
-					c.Run.Bad(rKey, base, fpos(c, t), "the session key is derived", "no call of "+kn)
-					continue
+					continue // derived by another task of the list (checked per list above)
 				}
 				for i, s := range ss {
 					sk := fmt.Sprintf("%s#%d", base, i+1)
@@ -429,22 +446,29 @@ func c16Arguments(c *Ctx, lists map[string]*c16List) {
 							want = ctxApp
 						}
 						keyT := s.Args[1].Specialise(got, pol)
-						checkTerm(c, rKey, fmt.Sprintf("%s/rootkey[optNeg=%v]", sk, pol), p, fmt.Sprintf("root key when optNeg=%v", pol), keyT, want)
+						checkCtxTerm(c, rs, ti, rKey, fmt.Sprintf("%s/rootkey[optNeg=%v]", sk, pol), p, fmt.Sprintf("root key when optNeg=%v", pol), keyT, want)
 					}
-					checkTerm(c, rKey, sk+"/netID", p, "netID", s.Args[2], flow.Param(0, "netID"))
-					checkTerm(c, rKey, sk+"/joinEUI", p, "joinEUI", s.Args[3], flow.Param(0, "joinEUI"))
-					checkTerm(c, rKey, sk+"/joinNonce", p, "joinNonce", s.Args[4], flow.Param(0, "joinNonce"))
-					checkTerm(c, rKey, sk+"/devNonce", p, "devNonce", s.Args[5], flow.Param(0, "devNonce"))
+					checkCtxTerm(c, rs, ti, rKey, sk+"/netID", p, "netID", s.Args[2], flow.Param(0, "netID"))
+					checkCtxTerm(c, rs, ti, rKey, sk+"/joinEUI", p, "joinEUI", s.Args[3], flow.Param(0, "joinEUI"))
+					checkCtxTerm(c, rs, ti, rKey, sk+"/joinNonce", p, "joinNonce", s.Args[4], flow.Param(0, "joinNonce"))
+					checkCtxTerm(c, rs, ti, rKey, sk+"/devNonce", p, "devNonce", s.Args[5], flow.Param(0, "devNonce"))
 				}
 			}
 			// the flag must be the OptNeg of the DLSettings put into the join-accept
 			{
 				var fs []string
-				allOK, unk := true, false
+				allOK, unk, rooted := true, false, true
+				wantR := rs.resolve(optNegWant, ci, 0)
 				for k, t := range flags {
 					fs = append(fs, k)
-					if !t.Equal(optNegWant) {
+					tr := rs.resolve(t, ti, 0)
+					if !t.Equal(optNegWant) && !tr.Equal(wantR) {
 						allOK = false
+						// a verdict needs a flag that is a plain input: a constant or a field of a request
+						// payload held in the context
+						if !(tr.Op == "const" || strings.Contains(tr.String(), "ReqPayload.")) || !tr.Pure() {
+							rooted = false
+						}
 					}
 					if t.IsUnknown() {
 						unk = true
@@ -455,7 +479,7 @@ func c16Arguments(c *Ctx, lists map[string]*c16List) {
 				switch {
 				case allOK && len(fs) > 0:
 					c.Run.OK(rKey, k, fpos(c, t), "optNeg of every derivation = OptNeg of the join-accept's DLSettings = "+optNegWant.String(), strings.Join(fs, ", "), true)
-				case unk:
+				case unk || !rooted:
 					c.Run.Unknown(rKey, k, fpos(c, t), "optNeg = "+optNegWant.String(), strings.Join(fs, ", "))
 				default:
 					c.Run.Bad(rKey, k, fpos(c, t), "optNeg of every derivation = OptNeg of the join-accept's DLSettings = "+optNegWant.String(), strings.Join(fs, ", ")+": the derivation variant (1.0/1.1) and the AppSKey root key are chosen from a different value than the OptNeg bit sent to the device")
@@ -468,6 +492,9 @@ func c16Arguments(c *Ctx, lists map[string]*c16List) {
 					continue
 				}
 				for _, kn := range []string{"getFNwkSIntKey", "getAppSKey", "getSNwkSIntKey", "getNwkSEncKey"} {
+					if len(perKey[kn]) == 0 {
+						continue // derived (and stored) by another task
+					}
 					got := e.SelectAddr(t.Params[0], []string{dest[kn]}, r)
 					okT := true
 					leaves := iteLeaves(got)
@@ -479,7 +506,7 @@ func c16Arguments(c *Ctx, lists map[string]*c16List) {
 					k := name + "/" + tname + "/store:" + dest[kn]
 					if okT && len(leaves) > 0 {
 						c.Run.OK(rKey, k, ipos(c, r), "ctx."+dest[kn]+" holds the result of "+kn, short(got.String()), true)
-					} else if got.IsUnknown() {
+					} else if got.IsUnknown() || unknownHelper(got, []string{jsPkg + kn + "("}) != "" {
 						c.Run.Unknown(rKey, k, ipos(c, r), "ctx."+dest[kn]+" holds the result of "+kn, short(got.String()))
 					} else {
 						c.Run.Bad(rKey, k, ipos(c, r), "ctx."+dest[kn]+" holds the result of "+kn, short(got.String()))
@@ -512,9 +539,9 @@ func c16Arguments(c *Ctx, lists map[string]*c16List) {
 		}
 
 		// --- MIC and encryption in the answer-building task
-		c16MicEnc(c, rMic, name, create, optNegWant)
+		c16MicEnc(c, rMic, name, create, optNegWant, rs, L)
 		// --- envelopes
-		c16Envelopes(c, rKek, name, create, optNegWant)
+		c16Envelopes(c, rKek, name, create, optNegWant, rs)
 		// --- chain of custody: literal ← handler params ← wrapper ← HTTP handler
 		c16Chain(c, rChain, name, L)
 	}
@@ -564,7 +591,8 @@ func derefNamed(t types.Type) (string, bool) {
 	return "", false
 }
 
-func c16MicEnc(c *Ctx, rule, list string, fn *ssa.Function, optNeg *flow.Term) {
+func c16MicEnc(c *Ctx, rule, list string, fn *ssa.Function, optNeg *flow.Term, rs *c16Resolver, L *c16List) {
+	ti := rs.taskIndex(fn)
 	e := flow.For(fn)
 	base := list + "/" + flow.ShortFunc(fn)
 	rejoin := list == "rejoinTasks"
@@ -572,7 +600,17 @@ func c16MicEnc(c *Ctx, rule, list string, fn *ssa.Function, optNeg *flow.Term) {
 	jsEnc := flow.Extract(flow.Call(jsPkg+"getJSEncKey", flow.Param(0, "deviceKeys", "NwkKey"), flow.Param(0, "devEUI")), 0)
 	mics := flow.Calls(fn, flow.Named("(*lorawan.PHYPayload).SetDownlinkJoinMIC"))
 	if len(mics) == 0 {
-		c.Run.Bad(rule, base+"/SetDownlinkJoinMIC", fpos(c, fn), "the join-accept MIC is set", "no call of SetDownlinkJoinMIC")
+		elsewhere := false
+		for _, t := range L.tl.Tasks {
+			if t != fn && flow.CallsTransitively(t, flow.InModule, flow.Named("(*lorawan.PHYPayload).SetDownlinkJoinMIC")) {
+				elsewhere = true
+			}
+		}
+		if elsewhere || flow.CallsTransitively(fn, flow.InModule, flow.Named("(*lorawan.PHYPayload).SetDownlinkJoinMIC")) {
+			c.Run.Unknown(rule, base+"/SetDownlinkJoinMIC", fpos(c, fn), "the join-accept MIC is set in the task that builds the frame", "set in another task or helper (outside the supported subset)")
+		} else {
+			c.Run.Bad(rule, base+"/SetDownlinkJoinMIC", fpos(c, fn), "the join-accept MIC is set", "no call of SetDownlinkJoinMIC in any task of "+list)
+		}
 		return
 	}
 	O := flow.AtomOf(optNeg)
@@ -585,12 +623,12 @@ func c16MicEnc(c *Ctx, rule, list string, fn *ssa.Function, optNeg *flow.Term) {
 			c.Run.Unknown(rule, sk, p, "5 arguments", fmt.Sprint(len(s.Args)))
 			continue
 		}
-		checkTerm(c, rule, sk+"/joinType", p, "join type", s.Args[1], flow.Param(0, "joinType"))
-		checkTerm(c, rule, sk+"/joinEUI", p, "JoinEUI", s.Args[2], flow.Param(0, "joinEUI"))
-		checkTerm(c, rule, sk+"/devNonce", p, "DevNonce (RJCount for rejoins, set by the context task)", s.Args[3], flow.Param(0, "devNonce"))
+		checkCtxTerm(c, rs, ti, rule, sk+"/joinType", p, "join type", s.Args[1], flow.Param(0, "joinType"))
+		checkCtxTerm(c, rs, ti, rule, sk+"/joinEUI", p, "JoinEUI", s.Args[2], flow.Param(0, "joinEUI"))
+		checkCtxTerm(c, rs, ti, rule, sk+"/devNonce", p, "DevNonce (RJCount for rejoins, set by the context task)", s.Args[3], flow.Param(0, "devNonce"))
 		pc := e.PathCond(s.Instr.Block(), nil)
 		if rejoin {
-			checkTerm(c, rule, sk+"/key", p, "MIC key of a rejoin answer (JSIntKey)", s.Args[4], jsInt)
+			checkCtxTerm(c, rs, ti, rule, sk+"/key", p, "MIC key of a rejoin answer (JSIntKey)", s.Args[4], jsInt)
 			continue
 		}
 		for _, pol := range []bool{true, false} {
@@ -605,7 +643,7 @@ func c16MicEnc(c *Ctx, rule, list string, fn *ssa.Function, optNeg *flow.Term) {
 			if pol {
 				want = jsInt
 			}
-			checkTerm(c, rule, fmt.Sprintf("%s/key[OptNeg=%v]", sk, pol), p, fmt.Sprintf("MIC key when OptNeg=%v", pol), s.Args[4].Specialise(optNeg, pol), want)
+			checkCtxTerm(c, rs, ti, rule, fmt.Sprintf("%s/key[OptNeg=%v]", sk, pol), p, fmt.Sprintf("MIC key when OptNeg=%v", pol), s.Args[4].Specialise(optNeg, pol), want)
 		}
 	}
 	enc, ok := oneSite(c, rule, base+"/call:EncryptJoinAcceptPayload", fn, "(*lorawan.PHYPayload).EncryptJoinAcceptPayload")
@@ -617,7 +655,7 @@ func c16MicEnc(c *Ctx, rule, list string, fn *ssa.Function, optNeg *flow.Term) {
 	if rejoin {
 		wantEnc, what = jsEnc, "encryption key of a rejoin answer (JSEncKey)"
 	}
-	checkTerm(c, rule, base+"/EncryptJoinAcceptPayload/key", ipos(c, enc.Instr), what, enc.Args[1], wantEnc)
+	checkCtxTerm(c, rs, ti, rule, base+"/EncryptJoinAcceptPayload/key", ipos(c, enc.Instr), what, enc.Args[1], wantEnc)
 	// same frame object, MIC on every path before encryption
 	same := true
 	for _, s := range mics {
@@ -634,15 +672,18 @@ func c16MicEnc(c *Ctx, rule, list string, fn *ssa.Function, optNeg *flow.Term) {
 	errSwallowRule(c, rule, fn)
 }
 
-func c16Envelopes(c *Ctx, rule, list string, fn *ssa.Function, optNeg *flow.Term) {
+func c16Envelopes(c *Ctx, rule, list string, fn *ssa.Function, optNeg *flow.Term, rs *c16Resolver) {
 	e := flow.For(fn)
+	ti := rs.taskIndex(fn)
 	base := list + "/" + flow.ShortFunc(fn)
 	rejoin := list == "rejoinTasks"
 	ans := "joinAnsPayload"
 	if rejoin {
 		ans = "rejoinAnsPaylaod"
+		if !hasField(fn.Params[0].Type(), ans) {
+			ans = "rejoinAnsPayload"
+		}
 	}
-	ansAlt := "rejoinAnsPayload"
 	type want struct{ label, kek, key string }
 	wants := map[string]want{
 		"NwkSKey":     {"nsKEKLabel", "nsKEK", "fNwkSIntKey"},
@@ -651,70 +692,58 @@ func c16Envelopes(c *Ctx, rule, list string, fn *ssa.Function, optNeg *flow.Term
 		"NwkSEncKey":  {"nsKEKLabel", "nsKEK", "nwkSEncKey"},
 		"AppSKey":     {"asKEKLabel", "asKEK", "appSKey"},
 	}
-	O := flow.AtomOf(optNeg)
-	found := map[string]bool{}
-	for _, b := range fn.Blocks {
-		for _, ins := range b.Instrs {
-			st, ok := ins.(*ssa.Store)
-			if !ok {
-				continue
-			}
-			at := e.Term(st.Addr) // addr($0.joinAnsPayload.X)
-			if at.Op != "addr" || len(at.Args) != 1 {
-				continue
-			}
-			var field string
-			for f := range wants {
-				if at.Args[0].Equal(flow.Param(0, ans, f)) || at.Args[0].Equal(flow.Param(0, ansAlt, f)) {
-					field = f
-				}
-			}
-			if field == "" {
-				continue
-			}
-			found[field] = true
-			w := wants[field]
-			val := e.Select(st.Val, nil, st)
+	absent := []*flow.Term{{Op: "zero"}, flow.Nil()}
+	n := 0
+	for _, r := range flow.Returns(fn) {
+		if !flow.IsNilConst(r.Results[0]) {
+			continue
+		}
+		n++
+		for _, f := range []string{"AppSKey", "NwkSKey", "FNwkSIntKey", "SNwkSIntKey", "NwkSEncKey"} {
+			w := wants[f]
 			wantT := flow.Extract(flow.Call("lorawan/backend.NewKeyEnvelope", flow.Param(0, w.label), flow.Param(0, w.kek), flow.Param(0, w.key)), 0)
-			k := base + "/envelope:" + field
-			if val.Equal(wantT) {
-				c.Run.OK(rule, k, ipos(c, st), field+" = NewKeyEnvelope(ctx."+w.label+", ctx."+w.kek+", ctx."+w.key+")", val.String(), true)
-			} else if val.IsUnknown() {
-				c.Run.Unknown(rule, k, ipos(c, st), field+" = "+wantT.String(), val.String())
-			} else {
-				c.Run.Bad(rule, k, ipos(c, st), field+" = NewKeyEnvelope(ctx."+w.label+", ctx."+w.kek+", ctx."+w.key+")", val.String()+": the key is wrapped for (or labelled as) the wrong party, the receiver cannot unwrap it with its KEK")
+			what := f + " = NewKeyEnvelope(ctx." + w.label + ", ctx." + w.kek + ", ctx." + w.key + ") (wrapped for and labelled as the party that holds that KEK)"
+			got := e.SelectAddr(fn.Params[0], []string{ans, f}, r)
+			k := fmt.Sprintf("%s/envelope:%s", base, f)
+			if n > 1 {
+				k += fmt.Sprintf("#%d", n)
 			}
-			if !rejoin {
-				pc := projectPlumbing(e.PathCond(st.Block(), nil), map[string]bool{O.Atom: true})
-				var g *flow.Formula
-				var what string
-				switch field {
-				case "NwkSKey":
-					g, what = flow.FNot(O), "only in LoRaWAN 1.0 answers (OptNeg clear)"
-				case "AppSKey":
-					g, what = flow.FTrue(), "in every answer"
-				default:
-					g, what = O, "only in LoRaWAN 1.1 answers (OptNeg set)"
+			p := ipos(c, r)
+			if rejoin {
+				if f == "NwkSKey" {
+					continue // a rejoin answer is always LoRaWAN 1.1
 				}
-				// compare on the OptNeg atom only: existentially project everything else
-				for a := range pc.Atoms() {
-					if a != O.Atom {
-						pc = flow.FOr(pc.Assign(a, true), pc.Assign(a, false))
-					}
+				checkCtxTerm(c, rs, ti, rule, k, p, what, got, wantT)
+				continue
+			}
+			on, off := got.Specialise(optNeg, true), got.Specialise(optNeg, false)
+			switch f {
+			case "AppSKey":
+				checkCtxTerm(c, rs, ti, rule, k, p, what, on, wantT)
+				if !on.Equal(off) {
+					checkCtxTerm(c, rs, ti, rule, k+"/1.0", p, what+" when OptNeg is clear", off, wantT)
 				}
-				compareGuard(c, rule, k+"/when", ipos(c, st), field+" is sent "+what, pc, g)
+			case "NwkSKey":
+				checkCtxTerm(c, rs, ti, rule, k, p, what+" when OptNeg is clear (LoRaWAN 1.0)", off, wantT)
+				checkTerm(c, rule, k+"/when", p, f+" when OptNeg is set (absent in a 1.1 answer)", on, absent...)
+			default:
+				checkCtxTerm(c, rs, ti, rule, k, p, what+" when OptNeg is set (LoRaWAN 1.1)", on, wantT)
+				checkTerm(c, rule, k+"/when", p, f+" when OptNeg is clear (absent in a 1.0 answer)", off, absent...)
 			}
 		}
 	}
-	need := []string{"AppSKey", "FNwkSIntKey", "SNwkSIntKey", "NwkSEncKey"}
-	if !rejoin {
-		need = append(need, "NwkSKey")
+	if n == 0 {
+		c.Run.Unknown(rule, base+"/envelopes", fpos(c, fn), "a successful return", "none")
 	}
-	for _, f := range need {
-		if !found[f] {
-			c.Run.Bad(rule, base+"/envelope:"+f, fpos(c, fn), f+" is set in the answer", "no store to ctx."+ans+"."+f)
+}
+
+func hasField(t types.Type, name string) bool {
+	for _, f := range flow.StructFields(t) {
+		if f == name {
+			return true
 		}
 	}
+	return false
 }
 
 func c16Chain(c *Ctx, rule, list string, L *c16List) {
@@ -1019,8 +1048,10 @@ func c16Echo(c *Ctx, lists map[string]*c16List) {
 			base := name + "/" + tname
 			p := ipos(c, ja.at)
 			f := func(n string) *flow.Term { return e.Select(ja.alloc, []string{n}, ja.at) }
-			checkTerm(c, rule, base+"/JoinNonce", p, "JoinNonce", f("JoinNonce"), flow.Param(0, "joinNonce"))
-			checkTerm(c, rule, base+"/HomeNetID", p, "HomeNetID", f("HomeNetID"), flow.Param(0, "netID"))
+			rs := newC16Resolver(L)
+			ti := rs.taskIndex(t)
+			checkCtxTerm(c, rs, ti, rule, base+"/JoinNonce", p, "JoinNonce", f("JoinNonce"), flow.Param(0, "joinNonce"))
+			checkCtxTerm(c, rs, ti, rule, base+"/HomeNetID", p, "HomeNetID", f("HomeNetID"), flow.Param(0, "netID"))
 			checkTerm(c, rule, base+"/DevAddr", p, "DevAddr", f("DevAddr"), flow.Param(0, req, "DevAddr"))
 			checkTerm(c, rule, base+"/DLSettings", p, "DLSettings", f("DLSettings"), flow.Param(0, req, "DLSettings"))
 			checkTerm(c, rule, base+"/RXDelay", p, "RXDelay", f("RXDelay"), flow.Conv("uint8", flow.Param(0, req, "RxDelay")))
@@ -1056,29 +1087,63 @@ func c16Echo(c *Ctx, lists map[string]*c16List) {
 				ai++
 				rk := fmt.Sprintf("%s/answer#%d", base, ai)
 				phy := e.SelectAddr(t.Params[0], []string{ans, "PHYPayload"}, r)
-				okShape := false
-				var frame *flow.Term
-				if phy.Op == "extract" && phy.Val == "0" && phy.Args[0].Op == "call" && phy.Args[0].Val == "(lorawan.PHYPayload).MarshalBinary" && len(phy.Args[0].Args) == 1 {
-					x := phy.Args[0].Args[0]
-					if x.Op == "after" && x.Val == "(*lorawan.PHYPayload).EncryptJoinAcceptPayload" && x.Args[0].Op == "after" && x.Args[0].Val == "(*lorawan.PHYPayload).SetDownlinkJoinMIC" {
-						okShape = true
-						frame = x.Args[0].Args[0]
+				wantPHY := "answer.PHYPayload = MarshalBinary(frame after SetDownlinkJoinMIC, then EncryptJoinAcceptPayload)"
+				// the MarshalBinary call inside the stored value and the history of the frame it received
+				var mb *flow.Term
+				phy.Has(func(x *flow.Term) bool {
+					if mb == nil && x.Op == "call" && x.Val == "(lorawan.PHYPayload).MarshalBinary" && len(x.Args) == 1 {
+						mb = x
 					}
-				}
-				if okShape {
-					c.Run.OK(rule, rk+"/PHYPayload", ipos(c, r), "answer.PHYPayload = MarshalBinary(frame after SetDownlinkJoinMIC, then EncryptJoinAcceptPayload)", short(phy.String()), true)
-					mt := recField(frame, "MHDR", "MType")
-					checkTerm(c, rule, rk+"/MType", ipos(c, r), "MHDR.MType (JoinAccept)", mt, flow.ConstInt(1))
-					mp := recField(frame, "MACPayload")
-					if mp != nil && mp.Op == "addr" && len(mp.Args) == 1 && mp.Args[0].Op == "rec" {
-						c.Run.OK(rule, rk+"/MACPayload", ipos(c, r), "MACPayload is the JoinAcceptPayload literal", short(mp.String()), true)
-					} else {
-						c.Run.Unknown(rule, rk+"/MACPayload", ipos(c, r), "MACPayload is the JoinAcceptPayload literal", fmt.Sprint(mp))
+					return false
+				})
+				switch {
+				case phy.IsUnknown():
+					c.Run.Unknown(rule, rk+"/PHYPayload", ipos(c, r), wantPHY, short(phy.String()))
+				case mb == nil && termDepth(phy) <= 2:
+					c.Run.Bad(rule, rk+"/PHYPayload", ipos(c, r), wantPHY, short(phy.String())+": not the marshalled frame")
+				case mb == nil:
+					c.Run.Unknown(rule, rk+"/PHYPayload", ipos(c, r), wantPHY, "built differently: "+short(phy.String()))
+				default:
+					var hist []string
+					frame := mb.Args[0]
+					for frame.Op == "after" && len(frame.Args) == 1 {
+						hist = append(hist, frame.Val)
+						frame = frame.Args[0]
 					}
-				} else if phy.IsUnknown() {
-					c.Run.Unknown(rule, rk+"/PHYPayload", ipos(c, r), "answer.PHYPayload = MarshalBinary(frame after SetDownlinkJoinMIC, then EncryptJoinAcceptPayload)", short(phy.String()))
-				} else {
-					c.Run.Bad(rule, rk+"/PHYPayload", ipos(c, r), "answer.PHYPayload = MarshalBinary(frame after SetDownlinkJoinMIC, then EncryptJoinAcceptPayload)", short(phy.String()))
+					const encN, micN = "(*lorawan.PHYPayload).EncryptJoinAcceptPayload", "(*lorawan.PHYPayload).SetDownlinkJoinMIC"
+					ie, im, other := -1, -1, ""
+					for i, h := range hist {
+						switch h {
+						case encN:
+							if ie < 0 {
+								ie = i
+							}
+						case micN:
+							if im < 0 {
+								im = i
+							}
+						default:
+							other = h
+						}
+					}
+					switch {
+					case other != "":
+						c.Run.Unknown(rule, rk+"/PHYPayload", ipos(c, r), wantPHY, "the frame also passes through "+other)
+					case ie >= 0 && im >= 0 && ie < im: // hist lists the latest call first
+						c.Run.OK(rule, rk+"/PHYPayload", ipos(c, r), wantPHY, short(phy.String()), true)
+					default:
+						c.Run.Bad(rule, rk+"/PHYPayload", ipos(c, r), wantPHY, "the marshalled frame's history is ["+strings.Join(hist, " <- ")+"] (latest first): the device cannot decrypt and verify it")
+					}
+					if other == "" {
+						mt := recField(frame, "MHDR", "MType")
+						checkTerm(c, rule, rk+"/MType", ipos(c, r), "MHDR.MType (JoinAccept)", mt, flow.ConstInt(1))
+						mp := recField(frame, "MACPayload")
+						if mp != nil && mp.Op == "addr" && len(mp.Args) == 1 && mp.Args[0].Op == "rec" {
+							c.Run.OK(rule, rk+"/MACPayload", ipos(c, r), "MACPayload is the JoinAcceptPayload literal", short(mp.String()), true)
+						} else {
+							c.Run.Unknown(rule, rk+"/MACPayload", ipos(c, r), "MACPayload is the JoinAcceptPayload literal", fmt.Sprint(mp))
+						}
+					}
 				}
 				rc := e.SelectAddr(t.Params[0], []string{ans, "BasePayloadResult", "Result", "ResultCode"}, r)
 				checkTerm(c, rule, rk+"/ResultCode", ipos(c, r), "ResultCode of a completed answer", rc, flow.ConstString("Success"))
@@ -1107,4 +1172,122 @@ func recField(t *flow.Term, path ...string) *flow.Term {
 		t = next
 	}
 	return t
+}
+
+// ---------------------------------------------------------------------------
+// pipeline-level resolution of context fields
+
+// c16Resolver rewrites $0.<field>… leaves of a term evaluated in task ti into the value the latest earlier
+// task of the same list stored there (evaluated at that task's successful returns), recursively; fields filled
+// by the handler literal or by nobody stay as they are. Comparing resolved forms keeps the argument rules
+// stable when a value is cached in (or renamed to) another context field by an earlier task.
+type c16Resolver struct {
+	L    *c16List
+	accs map[int][]flow.Access
+}
+
+func newC16Resolver(L *c16List) *c16Resolver {
+	return &c16Resolver{L: L, accs: map[int][]flow.Access{}}
+}
+
+func (r *c16Resolver) taskIndex(fn *ssa.Function) int { return r.L.tl.Index(fn) }
+
+func (r *c16Resolver) accesses(j int) []flow.Access {
+	if a, ok := r.accs[j]; ok {
+		return a
+	}
+	a, _ := flow.ParamAccesses(r.L.tl.Tasks[j], 0, flow.InModule)
+	r.accs[j] = a
+	return a
+}
+
+func ctxPath(t *flow.Term) ([]string, bool) {
+	var path []string
+	for t.Op == "field" && len(t.Args) == 1 {
+		path = append([]string{t.Val}, path...)
+		t = t.Args[0]
+	}
+	if t.Op == "param" && t.Val == "0" && len(path) > 0 {
+		return path, true
+	}
+	return nil, false
+}
+
+func (r *c16Resolver) resolve(t *flow.Term, ti, depth int) *flow.Term {
+	if t == nil || depth > 6 || ti <= 0 {
+		return t
+	}
+	if path, ok := ctxPath(t); ok {
+		for j := ti - 1; j >= 0; j-- {
+			writes := false
+			for _, a := range r.accesses(j) {
+				if a.Kind != "read" && len(a.Path) > 0 && a.Path[0] == path[0] {
+					writes = true
+				}
+			}
+			if !writes {
+				continue
+			}
+			task := r.L.tl.Tasks[j]
+			e := flow.For(task)
+			var val *flow.Term
+			for _, ret := range flow.Returns(task) {
+				if !flow.IsNilConst(ret.Results[0]) {
+					continue
+				}
+				v := e.SelectAddr(task.Params[0], path, ret)
+				if val == nil {
+					val = v
+				} else if !val.Equal(v) {
+					return t // differs between successful returns: leave unresolved
+				}
+			}
+			if val == nil || val.IsUnknown() {
+				return t
+			}
+			if val.Equal(t) {
+				// the task leaves this path as it found it (wrote a sibling): keep looking earlier
+				continue
+			}
+			return r.resolve(val, j, depth+1)
+		}
+		return t
+	}
+	if len(t.Args) == 0 {
+		return t
+	}
+	n := &flow.Term{Op: t.Op, Val: t.Val, Type: t.Type, Src: t.Src}
+	changed := false
+	for _, a := range t.Args {
+		b := r.resolve(a, ti, depth)
+		if b != a {
+			changed = true
+		}
+		n.Args = append(n.Args, b)
+	}
+	if !changed {
+		return t
+	}
+	return n
+}
+
+// checkCtxTerm is checkTerm for terms over the request context of task ti: equal as written, or equal after
+// resolving context fields through the earlier tasks of the list.
+func checkCtxTerm(c *Ctx, rs *c16Resolver, ti int, rule, key, pos, what string, got *flow.Term, wants ...*flow.Term) bool {
+	for _, w := range wants {
+		if got.Equal(w) {
+			return checkTerm(c, rule, key, pos, what, got, wants...)
+		}
+	}
+	rg := rs.resolve(got, ti, 0)
+	var rw []*flow.Term
+	for _, w := range wants {
+		x := rs.resolve(w, ti, 0)
+		if rg.Equal(x) {
+			c.Run.OK(rule, key, pos, what+" = "+w.String(), short(got.String())+" (same value through the earlier tasks: "+short(rg.String())+")", true)
+			return true
+		}
+		rw = append(rw, x)
+	}
+	return checkTerm(c, rule, key, pos, what, rg, rw...)
 }
